@@ -557,7 +557,21 @@ func genC14(tier string, r *core.Rand) Plan {
 		if hi < 2 {
 			hi = 2
 		}
-		rd.Bufs = core.Tape(r, r.Range(1, 4), func() int { return r.Range(1, hi) })
+		// a few thousand Read calls per run at most
+		total := 0
+		for _, e := range sessEv(func(e Ev) bool { return e.Kind == "arq" }) {
+			total += e.Size
+		}
+		lo := total/2000 + 1
+		if lo > hi {
+			lo = hi
+		}
+		rd.Bufs = core.Tape(r, r.Range(1, 4), func() int { return r.Range(lo, hi) })
+		if total/lo > 100 {
+			for i := range rd.ThinkUs {
+				rd.ThinkUs[i] %= 2000
+			}
+		}
 	} else {
 		lo := g.maxFrame
 		if lo < 1 {
